@@ -1,6 +1,9 @@
 //! Contains book keeping logics to process the input stream,
 //! and convert them into a processed Transactions.
 
+#[cfg(okane_verif)]
+#[allow(unused_imports)]
+use crate::verif::chrono;
 use std::{borrow::Borrow, path::PathBuf};
 
 use bumpalo::collections as bcc;
